@@ -393,16 +393,26 @@ pub fn run_case(case: &Case, rep: &mut Report) -> Option<(String, String)> {
                 let p = path_of(path);
                 let k = unhex(key);
                 let remove = *remove;
+                // every other attempt writes what is there already (a write that would change nothing is a write)
+                let mut raw_key = enc_path(&p);
+                raw_key.extend_from_slice(&k);
+                let value: Vec<u8> = match raw.get(&raw_key) {
+                    Some(v) if i % 2 == 0 => {
+                        run.rep.bump("c07/readonly_write_attempts_with_the_value_already_there");
+                        v.clone()
+                    }
+                    _ => b"x".to_vec(),
+                };
                 // a read-only view is handed out as Box<dyn Storage>; a write must be rejected (panic)
                 let r = catch(|| match access {
                     Access::Single => {
                         let mut v = app.prefixed_storage(&p[0]);
-                        if remove { v.remove(&k) } else { v.set(&k, b"x") }
+                        if remove { v.remove(&k) } else { v.set(&k, &value) }
                     }
                     Access::Multi => {
                         let segs: Vec<&[u8]> = p.iter().map(|s| s.as_slice()).collect();
                         let mut v = app.prefixed_multilevel_storage(&segs);
-                        if remove { v.remove(&k) } else { v.set(&k, b"x") }
+                        if remove { v.remove(&k) } else { v.set(&k, &value) }
                     }
                 });
                 run.rep.bump("c07/readonly_write_attempts");
